@@ -20,7 +20,8 @@ reg(Prop(
          'steps each checked against floor-mod arithmetic. Spiral: origins [-2,2]^2, near the type limits and random, distances 0..6 '
          '(thorough 0..10), positions int/long/long long. Neighbours: lattice x lattice positions. iterator::range/make_range/'
          'adapt_range: all sub-ranges [i,j) of containers of length 0..6 (thorough 0..10), elements compared by address. '
-         'distinct = canonical hash of (entry, row/chunk contents | enum,s,e | len,pad,start | origin,dist).',
+         'distinct = canonical hash of (entry, row/chunk contents | enum,s,e | len,pad,start | origin,dist).'
+         ' cyclic_iterator over a bidirectional iterator whose ++ / -- throw at every point of every 5-step direction pattern: the iterator stays inside its boundary and keeps cycling. Enums that fill uint8_t / uint16_t / the positive side of int8_t: sub-ranges ending at the maximum (a sub-range whose enumerator count is not representable in the enum\'s size_type is not judged).',
     assumptions=COMMON_ASSUMPTIONS + [
         'int_range::size() is judged only when the number of elements is representable in the range\'s own integer type (side condition of the statement); for int and wider types it is not even called otherwise because end - begin overflows (undefined)',
         'ranges with more elements than the prefix bound are judged on their first 40 (quick) / 300 (thorough) elements only; termination at e is then not observed',
